@@ -30,6 +30,7 @@ involve local static routing.
 from __future__ import absolute_import
 
 from .. import RelayError, TransientRelayError, PermanentRelayError
+from ...smtp.reply import Reply
 
 __all__ = ['SmtpRelayError']
 
@@ -47,8 +48,15 @@ class SmtpRelayError(RelayError):
     def factory(reply):
         if reply.code[0] == '5':
             return SmtpPermanentRelayError(reply)
-        else:
-            return SmtpTransientRelayError(reply)
+        elif reply.code[0] != '4':
+            # The peer answered with a reply that is no error where only an
+            # error makes sense (250 to the DATA command, 354 to MAIL): the
+            # failure must not carry a reply that reads as success further
+            # up, e.g. when an edge passes it on to its client.
+            text = '4.5.0 Unexpected reply: {0} {1}'.format(
+                reply.code, reply.message or '')
+            reply = Reply('451', text, reply.command, reply.address)
+        return SmtpTransientRelayError(reply)
 
 
 class SmtpTransientRelayError(SmtpRelayError, TransientRelayError):
